@@ -87,6 +87,8 @@ def run(rep, tier):
     if affine is not None:
         affine.rule_linear_ops(rep, tier, "C10.D2")
     rule_key_lifecycle(rep, tier)
+    from . import asm_anf
+    asm_anf.rule_masked_rounds(rep, "C10.D5", tier)
 
 
 def rule_key_lifecycle(rep, tier):
